@@ -302,9 +302,12 @@ def run(ctx):
     r08_4(ctx)
     r08_5(ctx)
     r08_6(ctx)
+    # no worker is forked after terminate() signalled the pool: the refill loop re-checks the state
+    from .c09 import r09_1
+    r09_1(ctx)
 
 
-_P = 'billiard/pool.py'
+_P ='billiard/pool.py'
 _C = 'billiard/common.py'
 MUTANTS = [
     ('swallow-systemexit', _P,
